@@ -133,6 +133,7 @@ type stepOut struct {
 	vaas    [][]byte
 	reqs    []*gossipv1.ObservationRequest
 	changed map[string][2][]byte // id string -> old,new
+	quorumEvents [][]byte        // VAAs announced to AttestationEventReporter subscribers (VAAQuorum), re-encoded
 }
 
 type penv struct {
@@ -154,6 +155,7 @@ type penv struct {
 	shadow   map[string][]byte // id -> stored bytes
 	ids      map[string]vaa.VAAID
 	events   *reporter.AttestationEventReporter
+	quorumC  <-chan *vaa.VAA
 }
 
 const ownKeyIdx = 0
@@ -181,6 +183,7 @@ func newEnv(c procCase, reqCap int) *penv {
 	e.obsvC = make(chan *gossipv1.SignedObservation, 4096)
 	e.reqC = make(chan *gossipv1.ObservationRequest, reqCap)
 	e.events = reporter.EventListener(zap.NewNop())
+	e.quorumC = e.events.Subscribe().Channels.VAAQuorumC
 	gst := common.NewGuardianSetState(nil)
 	e.p = NewProcessor(ctx, d, nil, nil, e.sendC, e.obsvC, e.reqC, nil, nil, poolSigner{vh.Key(e.ownKey)}, gst, e.events, nil, govChain, e.govAddr)
 	e.p.logger = zap.NewNop()
@@ -308,6 +311,19 @@ func (e *penv) drain() (*stepOut, *vh.Violation) {
 		select {
 		case r := <-e.reqC:
 			out.reqs = append(out.reqs, r)
+			continue
+		default:
+		}
+		break
+	}
+	for e.quorumC != nil {
+		select {
+		case v := <-e.quorumC:
+			b, err := v.Marshal()
+			if err != nil {
+				return out, vh.V("harness/quorum-event-marshal", "%v", err)
+			}
+			out.quorumEvents = append(out.quorumEvents, b)
 			continue
 		default:
 		}
